@@ -118,9 +118,17 @@ def res_script(rng, i):
     ref = rng.below(epoch)          # referenced epoch, 0 .. current-1
     ops.append({"op": "observe", "who": "A", "observe": "all"})
     obs_i = len(ops) - 1
+    # members that may have forgotten the epoch try to commit with it first (then drop the attempt)
+    attempts = []
+    for x in rng.shuffle([n for n in inside if n != "A"])[:2]:
+        ops.append({"op": "opts", "who": x, "encrypt_controls": False})
+        ops.append({"op": "commit", "who": x, "id": "try_" + x, "resumption": [ref]})
+        attempts.append((len(ops) - 1, x))
+        ops.append({"op": "clear", "who": x})
     ops.append({"op": "opts", "who": "A", "encrypt_controls": False})
     ops.append({"op": "commit", "who": "A", "id": "cr", "resumption": [ref]})
-    meta = {"committer": "A", "ref": ref, "epoch": epoch, "join_epoch": join_epoch, "deliveries": [], "retries": [], "join": None, "kind": "resumption", "obs": obs_i, "rets": rets, "commit": len(ops) - 1}
+    attempts.append((len(ops) - 1, "A"))
+    meta = {"committer": "A", "ref": ref, "epoch": epoch, "join_epoch": join_epoch, "deliveries": [], "retries": [], "join": None, "kind": "resumption", "obs": obs_i, "rets": rets, "commit": len(ops) - 1, "attempts": attempts}
     for n in inside:
         if n != "A":
             ops.append({"op": "deliver", "to": n, "msg": "cr", "snap_before": True, "observe": n})
@@ -184,7 +192,18 @@ def main(run, args):
         if any(r.get("err") == "PANIC" for r in rs):
             failing.append({"what": "PANIC", "script": sc["name"], "record": [r for r in rs if r.get("err") == "PANIC"][0]})
             continue
-        special = {k for k, _ in meta["deliveries"]} | ({meta["join"]} if meta["join"] is not None else set())
+        special = {k for k, _ in meta["deliveries"]} | ({meta["join"]} if meta["join"] is not None else set()) | {k for k, _ in meta.get("attempts", [])}
+        for (k, x) in meta.get("attempts", []):
+            r = byi.get(k, {})
+            pre = byi.get(meta["obs"], {}).get("obs", {})
+            ox = pre.get(x) or {}
+            st_x = "[" + "; ".join(f"(1, {e}, {e})" for e in (ox.get("stored_epochs") or []) if e is not None) + "]"
+            cases.append((f"can_resolve {st_x} 1 {meta['epoch']} [PResumption 1 {meta['ref']}]", bool(r.get("ok")),
+                          {"script": sc["name"], "member": x, "kind": "resumption commit attempt", "referenced_epoch": meta["ref"], "current_epoch": meta["epoch"], "stored": ox.get("stored_epochs"), "retention": meta["rets"].get(x), "library": r.get("err") or "ok"}))
+        if meta["kind"] == "resumption" and not byi.get(meta["commit"], {}).get("ok"):
+            # the committer itself no longer holds the epoch (compared with the model above): nothing to deliver
+            meta = dict(meta, deliveries=[])
+            special |= {r["i"] for r in rs if r.get("ok") is False and r["i"] > meta["commit"]}
         bad = [r for r in rs if r.get("ok") is False and r["i"] not in special]
         if bad:
             what = "once the PSK is known, the same commit is still refused" if any(bad[0]["i"] == k for k, _ in meta["retries"]) else "operation failed in the valid part of the scenario"
@@ -248,6 +267,7 @@ def main(run, args):
                 "Definition same_psks (ec : list (N * N)) (sc : list (N * N * N)) (en : list (N * N)) (sn : list (N * N * N)) (gid ep : N) (ids : list pskid) : N :=\n"
                 "  match resolve_all (hol ec sc gid ep) ids, resolve_all (hol en sn gid ep) ids with\n"
                 "  | Some a, Some b => if list_eqb a b then 1 else 0 | _, _ => 0 end.\n"
+                "Definition can_resolve (st : list (N * N * N)) (gid ep : N) (ids : list pskid) : N := match resolve_all (hol [] st gid ep) ids with Some _ => 1 | None => 0 end.\n"
                 "Eval vm_compute in [" + ";\n".join(c[0] for c in cases) + "].\n")
         nums, logtxt = coq_eval_cases("C18_cases", text, timeout=900)
         if nums is None or len(nums) != len(cases):
@@ -256,7 +276,7 @@ def main(run, args):
             for (expr, ok, ctx), v in zip(cases, nums):
                 coq_cases += 1
                 if bool(v) != ok:
-                    (failing if True else mism).append(dict(ctx, what="a member holding the committer's value of every PSK refused the commit" if v == 1 else "a member that lacks a PSK, holds another value or no longer retains the referenced epoch ACCEPTED the commit", model="accept" if v else "refuse"))
+                    (failing if True else mism).append(dict(ctx, what="a member holding every PSK was refused (commit or build)" if v == 1 else "a member that lacks a PSK, holds another value or no longer retains the referenced epoch ACCEPTED the commit / could build it", model="accept" if v else "refuse"))
     run.obligation("acceptance of every PSK commit = resolution model; acceptors agree, refusers unchanged, late PSK arrival heals, joiners need the PSKs", not failing and not mism and coq_cases > 0)
     if stats["refused_missing"] < 3 or stats["refused_other_value"] < 2 or stats["accepted"] < 10:
         broken.append(("generator", f"degenerate scenarios: {stats}"))
